@@ -141,7 +141,17 @@ def canon_py_rows(rows, case):
     return V.sort_rows([tuple(V.canon_py(x, t) for x, t in zip(k + m, types)) for k, m in rows])
 
 
-def classify(case):
+def identical_nested_operands(e):
+    """two textually identical NESTED operands somewhere in the expression (DuckDB fails to bind the repeated sub-query)"""
+    if isinstance(e, str):
+        return False
+    kids = [expr_text(k) for k in e[1] if not isinstance(k, str)]
+    return len(kids) != len(set(kids)) or any(identical_nested_operands(k) for k in e[1])
+
+
+def classify(case, got=None):
+    if got is not None and isinstance(got, tuple) and got and got[0] == "ERR" and "INTERNAL Error" in str(got[-1]) and identical_nested_operands(case["expr"]):
+        return "identical-nested-operands:duckdb-internal-error"
     e = case["expr"]
     n = len(e[1])
     nested = any(not isinstance(k, str) for k in e[1])
@@ -230,12 +240,12 @@ def run(ctx):
                 script, got = run_engine(small)
                 want = canon_py_rows(py_seval(small["expr"], small), small)
                 c = small
-                if ctx._known_key(classify(c)) is None:
+                if ctx._known_key(classify(c, got)) is None:
                     import hashlib
                     cdir.mkdir(parents=True, exist_ok=True)
                     cj = json.dumps(case_json(c), sort_keys=True)
                     (cdir / (hashlib.sha1(cj.encode()).hexdigest()[:10] + ".json")).write_text(cj)
-            ctx.violation(classify(c), f"{script} on {case_json(c)['data']}: engine returns {got}, VTL set semantics (model seval) gives {want}",
+            ctx.violation(classify(c, got), f"{script} on {case_json(c)['data']}: engine returns {got}, VTL set semantics (model seval) gives {want}",
                           {"case": case_json(c), "script": script, "engine": got, "expected": want})
     ctx.cov["rule"] = ("set expressions over 2-4 structurally compatible datasets (1-2 identifiers, 1-2 measures, nulls 25%, conflicting measures, "
                        "alternating declared column order), nesting ≤ 2; exhaustive key-membership patterns for flat operators; distinct = (script, data)")
